@@ -1,4 +1,5 @@
 import PgBifrost.Proofs.Kinesis
+import PgBifrost.Gen.KinesisSrc
 /-!
 # C11 — Kinesis: written means every record was accepted; only failures are retried
 
@@ -215,5 +216,32 @@ example :
       = .viol "written-but-not-all-accepted" ∧
     -- outside the AWS contract nothing is judged
     check [7, 8] [[7, 8]] [.resp [true, false] 0] true (some t) t = .skip := by decide
+
+/-- **the retry loop of the model is the iteration of the attempt in the source**
+(`kinesis_attempt_as_in_source`). `Gen/KinesisSrc.lean` is the `operation` closure of `transportWithRetry`
+TRANSLATED on every run: cancellation at the top returns without a call; a `PutRecords` error retries the same
+records; `FailedRecordCount == 0` is tested first and means success; then the size check; then the in-place
+compaction and `return err`. One step of the model's loop is exactly that attempt. -/
+theorem kinesis_attempt_as_in_source {α : Type} (fuel : Nat) (cur : List α) (outs : List Outcome) :
+    loop (fuel + 1) cur outs =
+      (match PgBifrost.Gen.KinesisSrc.attempt cur (headOut outs) with
+       | .cancelled => (.cancelled, [])
+       | .success => (.written, [cur])
+       | .panicSize => (.panicSizeMismatch, [cur])
+       | .panicIndex => (.panicIndex, [cur])
+       | .retry next => ((loop fuel next outs.tail).1, cur :: (loop fuel next outs.tail).2)) := by
+  simp only [loop, PgBifrost.Gen.KinesisSrc.attempt]
+  cases ho : headOut outs with
+  | cancelled => rfl
+  | callError => rfl
+  | resp codes fc =>
+    by_cases h0 : fc = 0
+    · simp [h0]
+    · by_cases hl : codes.length = cur.length
+      · have hl' : ¬ cur.length ≠ codes.length := by simp [hl]
+        simp only [h0, ↓reduceIte, hl, ne_eq, not_true_eq_false]
+        cases compact cur codes <;> rfl
+      · have hl' : cur.length ≠ codes.length := fun h => hl h.symm
+        simp [h0, hl, hl']
 
 end PgBifrost.Props.C11
